@@ -64,6 +64,9 @@ class HookDict(dict):
 
     def __setitem__(self, pid, w):
         new = pid not in self
+        if new:
+            self.k.cur_op = ("assign", pid)
+            self.k.inject("assign.pre")
         super().__setitem__(pid, w)
         if new:
             self.k.point("assign", pid, getattr(w, "age", 0))
@@ -89,6 +92,8 @@ class FakeListener:
 
     def close(self):
         if self.open:
+            self.k.cur_op = ("lclose", self.idx)
+            self.k.inject("lclose.pre")
             self.open = False
             self.k.point("lclose", self.idx)
 
@@ -128,6 +133,7 @@ class SimKernel:
         self.max_events = 4000
         self.last_worker = None
         self.counts = {}
+        self.cur_op = None
 
     # ---------------------------------------------------------------- trace
     def emit(self, name, p=0, a=0, b=0):
@@ -221,11 +227,13 @@ class SimKernel:
         for _ in range(n):
             self.sched.before_tick(self)
             self.ticks += 1
+            self.sched.after_tick(self)
             if self.deadline is not None and self.ticks >= self.deadline:
                 raise EndOfRun("deadline")
 
     # ---------------------------------------------------------------- patched calls
     def fork(self):
+        self.cur_op = ("fork", self.next_pid)
         self.inject("fork.pre")
         pid = self.next_pid
         self.next_pid += 1
@@ -240,6 +248,7 @@ class SimKernel:
             if pid == MASTER_PID or (pid in self.procs and self.procs[pid].st != "reaped"):
                 return
             raise OSError(errno.ESRCH, "No such process")
+        self.cur_op = ("kill", pid, sig)
         self.inject("kill.pre")
         p = self.procs.get(pid)
         if p is None or p.st == "reaped":
@@ -275,6 +284,7 @@ class SimKernel:
 
     def select(self, r, w, x, timeout=None):
         self.emit("select")
+        self.cur_op = ("select",)
         self.inject("select.pre")
         n = int(math.ceil((timeout if timeout is not None else 1.0) * self.T - 1e-9))
         for i in range(n + 1):
@@ -289,6 +299,7 @@ class SimKernel:
 
     def sleep(self, dt):
         n = int(math.ceil(dt * self.T - 1e-9)) if dt > 0 else 0
+        self.cur_op = ("sleep", n)
         self.inject("sleep.pre")
         if n:
             self.advance(n)
@@ -303,7 +314,16 @@ class SimKernel:
     def signal(self, num, handler):
         self.handlers[int(num)] = handler
 
+    def unlink(self, path, *a, **kw):
+        self.cur_op = ("unlink",)
+        self.inject("unlink.pre")
+        _os.unlink(path, *a, **kw)
+        self.emit("unlink")
+
     def create_sockets(self, conf, log, fds=None):
+        if self.listeners:
+            self.cur_op = ("lopen",)
+            self.inject("lopen.pre")
         out = []
         for addr in conf.address:
             self.nlisten += 1
@@ -334,7 +354,8 @@ class SimKernel:
         ga.signal = _Proxy(_signal, signal=self.signal)
         ga.random = _Proxy(__import__("random"), random=lambda: 0.0)
         ga.sock = _Proxy(gs, create_sockets=self.create_sockets)
-        gp.os = fos
+        gp.os = _Proxy(_os, fork=self.fork, kill=self.kill, waitpid=self.waitpid,
+                       getpid=lambda: MASTER_PID, getppid=lambda: PARENT_PID, unlink=self.unlink)
         gw.time = ftime
 
     def uninstall(self):
